@@ -92,3 +92,17 @@ class Regs:
             out[tval] = member
         self._probe = out
         return out
+
+
+def size_facts(lins):
+    """background fact (C01.a): rds_size[type] of a real register is 1, 2 or 4 atoms"""
+    from ..lin import Lin
+    out = []
+    atoms = set()
+    for l in lins:
+        atoms |= l.atoms()
+    for a in atoms:
+        if isinstance(a, tuple) and a[0] == 'i' and 'rds_size' in sym.fmt(a[1]):
+            out.append(Lin.const(1) - Lin.atom(a))
+            out.append(Lin.atom(a) - 4)
+    return out
